@@ -223,6 +223,35 @@ def _writer():
     return Rec()
 
 
+def _dispatch(tr, case: dict):
+    a = call_args(case)
+    shape = case["shape"]
+    if shape == "arc":
+        tr.arc(a["target"], a["center"])
+    elif shape == "arc_radius":
+        tr.arc_radius(a["target"], a["radius"])
+    elif shape == "circle":
+        tr.circle(a["center"])
+    elif shape == "helix":
+        tr.helix(a["target"], a["center"], a["turns"])
+    elif shape == "thread":
+        tr.thread(a["target"], a["pitch"])
+    elif shape == "spiral":
+        tr.spiral(a["target"], a["turns"])
+    elif shape == "spline":
+        tr.spline(a["points"])
+    elif shape == "polyline":
+        tr.polyline(a["points"])
+    elif shape == "parametric":
+        f = param_fn(case["fn"])
+        length = case["fn"].get("length")
+        if length is None:
+            length = float(tr.estimate_length(200, f))
+        tr.parametric(f, length)
+    else:
+        raise core.Infra(f"unknown shape {shape}")
+
+
 def run_impl(case: dict, res_override: float | None = None) -> dict:
     """Run one tracer call on a real builder.  Nothing here consults the model."""
     from gscrib import GCodeBuilder
@@ -245,6 +274,17 @@ def run_impl(case: dict, res_override: float | None = None) -> dict:
     g.set_direction("cw" if case["cw"] else "ccw")
     s = case["start"]
     g.move(x=s[0], y=s[1], z=s[2])
+    warm = case.get("warm")
+    if warm and not case.get("switch"):
+        # the same request traced once before on this builder at another resolution (state kept between calls
+        # must not leak into the next trace)
+        g.set_resolution(res * warm)
+        try:
+            _dispatch(g.trace, case)
+        except Exception:  # noqa
+            pass
+        g.move(x=s[0], y=s[1], z=s[2])
+        g.set_resolution(res)
     if case["rel"]:
         g.set_distance_mode("relative")
     res_eff = g.state.resolution
@@ -266,34 +306,9 @@ def run_impl(case: dict, res_override: float | None = None) -> dict:
         return orig(f2, length, **kw)
 
     tr.parametric = wrapped  # instance attribute shadows the method; `self.parametric(...)` resolves to it
-    a = call_args(case)
-    shape = case["shape"]
     outcome = "ok"
     try:
-        if shape == "arc":
-            tr.arc(a["target"], a["center"])
-        elif shape == "arc_radius":
-            tr.arc_radius(a["target"], a["radius"])
-        elif shape == "circle":
-            tr.circle(a["center"])
-        elif shape == "helix":
-            tr.helix(a["target"], a["center"], a["turns"])
-        elif shape == "thread":
-            tr.thread(a["target"], a["pitch"])
-        elif shape == "spiral":
-            tr.spiral(a["target"], a["turns"])
-        elif shape == "spline":
-            tr.spline(a["points"])
-        elif shape == "polyline":
-            tr.polyline(a["points"])
-        elif shape == "parametric":
-            f = param_fn(case["fn"])
-            length = case["fn"].get("length")
-            if length is None:
-                length = float(tr.estimate_length(200, f))
-            tr.parametric(f, length)
-        else:
-            raise core.Infra(f"unknown shape {shape}")
+        _dispatch(tr, case)
     except core.Infra:
         raise
     except Exception as e:  # canonicalised: class name only
@@ -778,6 +793,10 @@ def _gen_case(rng, shape, ratio, malformed):
                 p[2] = None
             if rng.random() < 0.1:
                 p = list(prev)  # duplicate of the previous control point
+            elif rng.random() < 0.15 and len(pts) >= 1:
+                # come back to an earlier location (closed loop, out-and-back): not a *consecutive* duplicate
+                back = rng.choice([list(s)] + [q for q in pts[:-1] if None not in q]) if len(pts) >= 1 else list(s)
+                p = [float(v) for v in back]
             pts.append(p)
             prev = [prev[i] if v is None else v for i, v in enumerate(p)]
         if shape == "polyline" and rng.random() < 0.3:
